@@ -566,7 +566,7 @@ Proof.
   intros Hk Hh Hc. unfold op_insert. apply S_st_unl; [unfold MAXH; lia|]. intros _.
   destruct (alloc1 _) as [gnew s1]. apply S_assign. destruct (allocn _ s1) as [slots s2].
   apply S_insert_loop; auto.
-  - split; [apply mk_node_isnode|now apply mk_node_key].
+  - split; [apply mk_node_isnode|unfold node_id; now apply mk_node_key].
   - intros s' b. apply S_free_all. intros s''. apply S_clear. apply S_finish, Hc.
   - apply S_free_all. intros s''. apply S_clear. apply S_out_of_fuel, Hc.
 Qed.
@@ -646,11 +646,11 @@ Fixpoint nodes_ok (nodes : list (nat * nat)) : Prop :=
   end.
 
 Lemma pre_node_key k : (k < 8)%nat -> key_of (pre_node k) = Z.of_nat k.
-Proof. intros H. unfold pre_node. now apply mk_node_key. Qed.
+Proof. intros H. unfold pre_node, node_id. now apply mk_node_key. Qed.
 Lemma pre_node_inj k k' : pre_node k = pre_node k' -> k = k'.
-Proof. unfold pre_node, mk_node. lia. Qed.
+Proof. unfold pre_node, node_id, mk_node. lia. Qed.
 Lemma pre_node_not_head k : pre_node k <> head.
-Proof. unfold pre_node, mk_node, head. lia. Qed.
+Proof. unfold pre_node, node_id, mk_node, head. lia. Qed.
 
 Lemma next_at_in l r : next_at l r = null \/ exists k h, In (k, h) r /\ next_at l r = pre_node k.
 Proof.
